@@ -160,6 +160,8 @@ package xmodel
 //@   ensures [C01] only_pointer_tables_written: forall k string :: k[0] != 90 ==> bop(batch, k) == old(bop(batch, k))
 // C09: committing changes exactly the declared keys to exactly the declared versions
 //@   ensures [C09] commit_moves_exactly_the_declared_keys: movedTo(tx, batch, len(tx.TxOutputsExt)) && (forall k string :: k[0] != 90 ==> bop(batch, k) == old(bop(batch, k)))
+//@   ensures [C06] play_only_queues_in_the_callers_batch: kvDirect == old(kvDirect) && kvWrites == old(kvWrites)
+//@   loop 1 invariant [C06] nothing_written_so_far: kvDirect == old(kvDirect) && kvWrites == old(kvWrites)
 //@   loop 1 invariant [C01] only_pointer_tables_so_far: forall k string :: k[0] != 90 ==> bop(batch, k) == old(bop(batch, k))
 //@   loop 1 invariant [C01] moved_so_far: 0 <= $i && $i <= len(tx.TxOutputsExt) && movedTo(tx, batch, $i)
 //@   ensures written_versions_cached: len(tx.Blockid) > 0 ==> cachedUpTo(s, tx, len(tx.TxOutputsExt))
@@ -175,6 +177,7 @@ package xmodel
 //@   at XModel.updateExtUtxo assert only_after_both_checks: err == nil && $0 == tx && $1 == batch
 //@   ensures refused_writes_nothing: result != nil ==> batchOp == old(batchOp) && batchVal == old(batchVal)
 //@   ensures [C01] only_pointer_tables_written: forall k string :: k[0] != 90 ==> bop(batch, k) == old(bop(batch, k))
+//@   ensures [C06] play_only_queues_in_the_callers_batch: kvDirect == old(kvDirect) && kvWrites == old(kvWrites)
 
 // ======================= C01: undo moves every pointer back =======================
 // citedUpTo(tx, k, n): the version the transaction cites for raw key k among its first
@@ -195,6 +198,11 @@ package xmodel
 //@   uses concatPrefixDistinct
 //@   ensures pointer_moves_back_to_the_cited_version: result == nil ==> movedBack(s, tx, batch, len(tx.TxOutputsExt))
 //@   ensures cache_is_of_this_batch: s.lastBatch == batch
+// ... and all of it only queued in the caller's batch: the pointers move with the rest of
+// the undo (utxo rows, latest-block pointer) in one write, or not at all (C06).
+//@   ensures [C06] undo_only_queues_in_the_callers_batch: kvDirect == old(kvDirect) && kvWrites == old(kvWrites)
+//@   loop 1 invariant [C06] nothing_written_yet: kvDirect == old(kvDirect) && kvWrites == old(kvWrites)
+//@   loop 2 invariant [C06] nothing_written_so_far: kvDirect == old(kvDirect) && kvWrites == old(kvWrites)
 //@   loop 1 invariant cited_versions: 0 <= $i && $i <= len(tx.TxInputsExt) && inputVersionMap != nil && (forall k string :: inputVersionMap[k] == citedUpTo(tx, k, $i))
 //@   loop 2 invariant moved_back_so_far: 0 <= $i && $i <= len(tx.TxOutputsExt) && inputVersionMap != nil && (forall k string :: inputVersionMap[k] == citedUpTo(tx, k, len(tx.TxInputsExt))) && movedBack(s, tx, batch, $i) && s.lastBatch == batch
 
